@@ -201,6 +201,8 @@ class FnVerifier(ExprMixin, StmtMixin, CallMixin):
         self.entry = st.copy()
         for r in self.c.requires:
             self.assume_spec(r, st, old=self.entry)
+        for lname in self.c.lemmas:
+            st.assume(self.lemma_closure(lname, st))
         self.entry = st.copy()
         # frame: objects this function may write
         self.modset = []
@@ -209,6 +211,26 @@ class FnVerifier(ExprMixin, StmtMixin, CallMixin):
             st.assume(*sides)
             self.modset.append(v)
         return st
+
+    def lemma_closure(self, lname, st):
+        """forall params. requires => ensures of a ghost lemma (proved on its own: lemma.<name> obligations of the same run)"""
+        from .specs import formal
+        l = self.reg.lemmas[lname]
+        env, zs = {}, []
+        for pn, pt in l.params:
+            v, z = formal('U_%s_%s' % (lname, pn), pt)
+            env[pn] = v
+            zs += z
+        pre, post = [], []
+        for r in l.requires:
+            g, sides = self.spec_bool(r, st, env=env)
+            pre += sides + [g]
+        for e in l.ensures:
+            g, sides = self.spec_bool(e, st, env=env)
+            pre += sides
+            post.append(g)
+        body = z3.Implies(z3.And(*pre), z3.And(*post)) if pre else z3.And(*post)
+        return z3.ForAll(zs, z3.simplify(body))
 
     # ------------------------------------------------------------------ run
     def body_stmts(self):
